@@ -945,4 +945,18 @@ theorem tie_skel_bufferManager_sliceSize : Gen.Skel.bufferManager_sliceSize = [
   "return",
   "}"] := by rfl
 
+
+/-! WriteString's zero-copy conversion -/
+
+theorem tie_skel_string2bytesZeroCopy : Gen.Skel.string2bytesZeroCopy = [
+  "func string2bytesZeroCopy(s string) []byte {",
+  "stringHeader := (*reflect.StringHeader)(unsafe.Pointer(&s))",
+  "bh := reflect.SliceHeader{",
+  "Data: stringHeader.Data,",
+  "Len: stringHeader.Len,",
+  "Cap: stringHeader.Len,",
+  "}",
+  "return *(*[]byte)(unsafe.Pointer(&bh))",
+  "}"] := by rfl
+
 end Tie.C06
